@@ -2816,3 +2816,39 @@ func apiTreeIterAfterEdit(rep *Report) {
 		rep.violate("C12", "iter-differs", what, "tree edited between iterations")
 	}
 }
+
+// ---- an Encode sink listed AFTER a typed Unmarshal sink in one Copy / behind a Tee: it writes the bytes of the source ----
+func apiEncodeBesideUnmarshal(rep *Report) {
+	lit := func(s string) sb.Token { return sb.Token{Kind: sb.KindLiteral, Value: s} }
+	cases := []struct {
+		ts  []sb.Token
+		tgt func() any
+	}{
+		{[]sb.Token{lit("42")}, func() any { return new(int) }},
+		{[]sb.Token{lit("1.5")}, func() any { return new(float32) }},
+		{[]sb.Token{tokK(sb.KindArray), lit("1"), lit("200"), tokK(sb.KindArrayEnd)}, func() any { return new([]uint8) }},
+		{[]sb.Token{tokK(sb.KindObject), tokS("A"), lit("7"), tokS("B"), tokS("s"), tokK(sb.KindObjectEnd)}, func() any {
+			return new(struct {
+				A int16
+				B string
+			})
+		}},
+		{[]sb.Token{tokI(5), tokS("x")}, func() any { return new(int) }},
+	}
+	for _, c := range cases {
+		want := runEncode(c.ts, 0, 0).bytes
+		for fl := range writerFlavours {
+			w, cw := mkWriter(fl, 0)
+			e := guard(func() error { return sb.Copy(tokensFrom(c.ts), sb.Unmarshal(c.tgt()), sb.Encode(w)) })
+			w2, cw2 := mkWriter(fl, 0)
+			e2 := guard(func() error { return sb.Copy(sb.Tee(tokensFrom(c.ts), sb.Unmarshal(c.tgt())), sb.Encode(w2)) })
+			rep.Evaluations += 2
+			rep.count("api:encode-beside-unmarshal")
+			if e != nil || e2 != nil || !bytes.Equal(cw.buf.Bytes(), want) || !bytes.Equal(cw2.buf.Bytes(), want) {
+				what := fmt.Sprintf("Copy(src, Unmarshal, Encode) wrote %x (%v), behind Tee(src, Unmarshal) %x (%v); the source encodes to %x", cw.buf.Bytes(), e, cw2.buf.Bytes(), e2, want)
+				rep.violate("C03", "encode-not-a-function-of-the-stream", what, "stream=["+descTokens(c.ts)+"]")
+				rep.violate("C02", "roundtrip", what, "stream=["+descTokens(c.ts)+"]")
+			}
+		}
+	}
+}
